@@ -14,7 +14,13 @@ PermMat(p) == [i \in 1..4 |-> [j \in 1..4 |-> IF p[i] = j THEN 1 ELSE 0]]
 L0s == {[i \in 1..3 |-> [j \in 1..3 |-> IF j > i THEN 0 ELSE IF i = j THEN d[i] ELSE o[i + j - 2]]] :
           d \in [1..3 -> 1..2], o \in [1..3 -> (0 - 1)..1]}
 LLt(L) == [i \in 1..3 |-> [j \in 1..3 |-> L[i][1] * L[j][1] + L[i][2] * L[j][2] + L[i][3] * L[j][3]]]
-Fam == IF Fam4 THEN {PermMat(p) : p \in Perms4} \cup {LLt(L) : L \in L0s} ELSE {}
+\* every symmetric matrix of order 4 with unit diagonal and off-diagonal entries in -1..1 (729: positive diagonal, so the
+\* solvers try Cholesky first; definite, indefinite with negative, zero and 0/0 pivots, singular), and with diagonal 2
+\* and off-diagonal entries in 0..1 (64: positive definite ones with zeros that fill in during factorisation)
+SymOf(d, o) == [i \in 1..4 |-> [j \in 1..4 |-> IF i = j THEN d ELSE
+                   LET a == IF i < j THEN i ELSE j   b == IF i < j THEN j ELSE i IN o[(a - 1) * 4 + b - (a * (a + 1)) \div 2]]]
+Sym4 == {SymOf(1, o) : o \in [1..6 -> (0 - 1)..1]} \cup {SymOf(2, o) : o \in [1..6 -> 0..1]}
+Fam == IF Fam4 THEN {PermMat(p) : p \in Perms4} \cup {LLt(L) : L \in L0s} \cup Sym4 ELSE {}
 
 Init == A \in AllMats \cup Fam
 Next == UNCHANGED A
